@@ -49,6 +49,9 @@ pub struct StressCampaign {
     /// C05 view: judge only the shape of every datagram (within capacity, whole
     /// terminated lines of metrics that were emitted), not order or conservation
     pub framing_only: bool,
+    /// C19 view: no explicit flushes; every datagram except the one written by the final
+    /// drop must have been too full for the longest line (loss- and order-insensitive)
+    pub greedy_only: bool,
 }
 
 struct Tmp(std::path::PathBuf);
@@ -70,6 +73,7 @@ impl Campaign for StressCampaign {
     }
     fn strategy(&self, _tier: Tier) -> BoxedStrategy<StressCase> {
         let sinks: Vec<StressSink> = self.sinks.to_vec();
+        let greedy_only = self.greedy_only;
         (
             prop::sample::select(sinks),
             prop_oneof![Just(24usize), Just(32), Just(64), Just(128), Just(512), 24usize..200],
@@ -78,12 +82,12 @@ impl Campaign for StressCampaign {
             prop_oneof![Just(0u8), 3u8..40],
             any::<u64>(),
         )
-            .prop_map(|(sink, cap, threads, per_thread, flush_every, yields)| StressCase {
+            .prop_map(move |(sink, cap, threads, per_thread, flush_every, yields)| StressCase {
                 sink,
                 cap,
                 threads,
                 per_thread: if sink == StressSink::UnixBlockedReceiver { per_thread.min(300) } else { per_thread },
-                flush_every,
+                flush_every: if greedy_only { 0 } else { flush_every },
                 yields,
             })
             .boxed()
@@ -108,7 +112,7 @@ impl Campaign for StressCampaign {
                     done: Arc::new(std::sync::atomic::AtomicUsize::new(0)),
                     released: crate::sockets::ReleaseSignal(released.clone()),
                 };
-                StatsdClient::from_sink("", cadence::QueuingMetricSink::from(rec))
+                StatsdClient::from_sink("", crate::queue::build_queuing(rec, case.yields))
             }
             StressSink::Spy => {
                 let (rx, sink) = BufferedSpyMetricSink::with_capacity(None, Some(case.cap));
@@ -339,8 +343,25 @@ impl Campaign for StressCampaign {
                 break;
             }
         }
+        if self.greedy_only {
+            bad.retain(|b| b.contains("panicked"));
+            let lmax = acked.iter().flatten().map(|l| l.len()).max().unwrap_or(0);
+            let under: Vec<usize> = stream.iter().map(|d| d.len()).filter(|n| n + lmax + 1 <= case.cap).collect();
+            // at most one datagram (the remainder written when the client is dropped) may have had
+            // room for another line: every other one was sent because the next line did not fit
+            if case.flush_every == 0 && under.len() > 1 {
+                bad.push(format!(
+                    "{} of {} datagrams were sent although even the longest line ({} bytes + terminator) still fitted into capacity {} (sizes e.g. {:?}); without explicit flushes at most the final one may be under-filled",
+                    under.len(),
+                    stream.len(),
+                    lmax,
+                    case.cap,
+                    &under[..under.len().min(5)]
+                ));
+            }
+        }
         // flush markers: when a thread's flush returned Ok, its earlier metrics had been written
-        if case.sink == StressSink::Spy && bad.is_empty() && !self.framing_only {
+        if case.sink == StressSink::Spy && bad.is_empty() && !self.framing_only && !self.greedy_only {
             let mut pos: HashMap<&str, usize> = HashMap::new();
             for (di, d) in stream.iter().enumerate() {
                 if let Ok(text) = std::str::from_utf8(d) {
@@ -370,7 +391,7 @@ impl Campaign for StressCampaign {
             }
         }
         for a in acked.iter().flatten() {
-            if self.framing_only {
+            if self.framing_only || self.greedy_only {
                 break;
             }
             match seen.get(a.as_str()).copied().unwrap_or(0) {
